@@ -120,13 +120,21 @@ def concrete_playback(snapshot, target_dir, harness, timeout=900, solver=None):
         out = p.stdout
     except subprocess.TimeoutExpired as e:
         return None, "concrete playback timed out"
-    m = re.search(r"let concrete_vals: Vec<Vec<u8>> = vec!\[(.*?)\];", out, flags=re.S)
-    if not m:
+    cands = []
+    for blk in out.split("Concrete playback unit test for")[1:]:
+        if "Check for `cover`" in blk:
+            continue      # a satisfied cover also gets a playback test: that one is a PASSING run
+        m = re.search(r"let concrete_vals: Vec<Vec<u8>> = vec!\[(.*?)\];", blk, flags=re.S)
+        if not m:
+            continue
+        vals = []
+        for vm in re.finditer(r"vec!\[([^\]]*)\]", m.group(1)):
+            vals.append([int(x) for x in vm.group(1).replace("\n", " ").split(",") if x.strip()])
+        what = re.search(r"/// Check for `(\w+)`: (.*)", blk)
+        cands.append({"vals": vals, "check": what.group(2).strip() if what else ""})
+    if not cands:
         return None, out[-2000:]
-    vals = []
-    for vm in re.finditer(r"vec!\[([^\]]*)\]", m.group(1)):
-        vals.append([int(x) for x in vm.group(1).replace("\n", " ").split(",") if x.strip()])
-    return vals, out[-4000:]
+    return cands, out[-4000:]
 
 
 def native_replay(snapshot, native_target, harness, vals, timeout=600):
@@ -150,3 +158,28 @@ def native_replay(snapshot, native_target, harness, vals, timeout=600):
     return {"outcome": outcome, "reproduced": bool(m) and (outcome.startswith("FAILED") or outcome.startswith("PANIC")),
             "cmd": " ".join(cmd), "env": {"VERIF_REPLAY_HARNESS": harness.name,
                                           "VERIF_REPLAY_BYTES": env["VERIF_REPLAY_BYTES"]}}
+
+
+def native_grid_search(snapshot, native_target, harness, budget=3000000, timeout=600):
+    """Native witness search: run the harness body over a grid of boundary values against the real code.
+    Returns {found, vals, outcome, cmd}."""
+    env = dict(os.environ)
+    env.update(ENV_BASE)
+    env["CARGO_TARGET_DIR"] = native_target
+    env["RUSTFLAGS"] = (env.get("RUSTFLAGS", "") + " --cfg verif_replay -A warnings").strip()
+    env["VERIF_REPLAY_HARNESS"] = harness.name
+    env["VERIF_REPLAY_GRID"] = str(budget)
+    test = harness.module_path + "::verif_replay_entry"
+    cmd = ["cargo", "test", "--offline", "--lib", test, "--", "--exact", "--nocapture", "--test-threads", "1"]
+    try:
+        p = subprocess.run(cmd, cwd=snapshot, env=env, stdout=subprocess.PIPE, stderr=subprocess.STDOUT, text=True,
+                           timeout=timeout)
+        out = p.stdout
+    except subprocess.TimeoutExpired:
+        return {"found": False, "outcome": "grid search timed out", "cmd": " ".join(cmd)}
+    m = re.search(r"VERIF-GRID-FOUND: bytes=(\S*) outcome=(.*)", out)
+    if m:
+        vals = [[int(b) for b in part.split(",") if b] for part in m.group(1).split(";") if part]
+        return {"found": True, "vals": vals, "outcome": m.group(2).strip(), "cmd": " ".join(cmd)}
+    m = re.search(r"VERIF-GRID-NONE: (.*)", out)
+    return {"found": False, "outcome": m.group(0) if m else out[-1500:], "cmd": " ".join(cmd)}
